@@ -35,7 +35,7 @@ RULE = ('histories of 2-6 runs over DAGs of 3-10 probe tasks with chains of '
         'shape, per-run schedule traces) in which at least one run '
         're-executed the head or the middle of a chain of DONE tasks')
 DECIDING = ['runs', 'I1_checks', 'I2_checks', 'reexecutions_observed',
-            'chain_head_reexecuted', 'stress_runs']
+            'chain_head_reexecuted', 'stress_runs', 'cli_runs']
 ASSUMPTIONS = ['environments are carried over the documented way: only DONE '
                'entries are merged into a fresh environment',
                'real clocks may tie: "finished before it started" is end <= '
@@ -59,6 +59,13 @@ def plan(tier, seed):
             spec['files'] = True
     else:
         specs[0]['files'] = True
+    # histories through the real `valjean run` command class
+    ncli = 2 if tier == 'quick' else 4
+    for i in range(ncli):
+        specs.append({'prop': PROP, 'tier': tier, 'seed': seed,
+                      'shard': 500 + i, 'mode': 'cli', 'lo': 0,
+                      'hi': 40 if tier == 'quick' else 1500,
+                      'hashseed': 11 + i})
     return specs
 
 
@@ -329,8 +336,108 @@ def run_history(hist, seed_parts, rec, engine, files=False, choices=None):
     return scheds
 
 
+JOB_FILE = '''import builtins
+
+
+def job():
+    return list(getattr(builtins, %r))
+'''
+
+
+def cli_history(hist, seed_parts, rec):
+    '''A history executed through RunCommand.execute (real threads, real
+    clocks, real environment files); in some runs only a dependency-closed
+    part of the job is requested.'''
+    # pylint: disable=too-many-locals
+    import builtins
+    from argparse import Namespace
+    from valjean.config import Config
+    from valjean.cambronne.commands.run import RunCommand
+    from valjean.cambronne.common import read_env
+    mon = H.Monitor()
+    root = tempfile.mkdtemp(prefix='vf-c04cli-', dir=core.fast_tmp())
+    key = '_vf_c04_' + core.h(seed_parts)
+    try:
+        outroot = os.path.join(root, 'out')
+        os.makedirs(outroot)
+        job = os.path.join(root, f'job_{core.h(seed_parts)}.py')
+        with open(job, 'w') as fil:
+            fil.write(JOB_FILE % key)
+        config = Config()
+        config.set('path', 'output-root', outroot)
+        config.set('path', 'log-root', os.path.join(root, 'log'))
+        rng = core.rng_for(*seed_parts, 'cli')
+        for run_no in range(len(hist['runs'])):
+            case = case_for_run(hist, run_no)
+            # sometimes only a part of the job is asked for
+            if run_no and rng.random() < 0.35:
+                _, clo = transitive(case)
+                focus = rng.choice(case['tasks'])
+                keep = clo[focus] | {focus}
+                case = {'tasks': [n for n in case['tasks'] if n in keep],
+                        'hard': {n: d for n, d in case['hard'].items()
+                                 if n in keep},
+                        'soft': {n: d for n, d in case['soft'].items()
+                                 if n in keep},
+                        'outcomes': {n: o for n, o in
+                                     case['outcomes'].items() if n in keep},
+                        'workers': case['workers']}
+                rec.count('cli_partial_jobs')
+            for name in hist['runs'][run_no]['lose']:
+                try:
+                    os.unlink(os.path.join(outroot, name, 'valjean.env'))
+                except OSError:
+                    pass
+            for name in case['tasks']:
+                os.makedirs(os.path.join(outroot, name), exist_ok=True)
+            tasks, _, _ = H.build(case, mon, outroot=outroot)
+            mon.new_run(case['outcomes'])
+            # roots: the tasks nothing else depends on
+            deps, _ = transitive(case)
+            needed = set().union(*deps.values()) if deps else set()
+            roots = [tasks[n] for n in case['tasks'] if n not in needed]
+            setattr(builtins, key, roots)
+            before_env = read_env(root=outroot, names=case['tasks'],
+                                  filename='valjean.env', fmt='pickle')
+            before = snapshot_env(before_env, case['tasks'])
+            args = Namespace(job_file=job, job_args=[], job_kwargs={},
+                             workers=case['workers'],
+                             env_filename='valjean.env',
+                             env_format='pickle')
+            where = {'history': hist, 'engine': 'cli',
+                     'seed_parts': list(seed_parts), 'run_no': run_no}
+            rec.count('evaluations')
+            try:
+                env = RunCommand().execute(args, config)
+            except Exception as err:  # pylint: disable=broad-except
+                rec.count('runs_not_returned(C03)')
+                rec.note('cli_raised', repr(err)[:200])
+                return
+            rec.count('runs')
+            rec.count('cli_runs')
+            for vkey, msg in mon.start_violations:
+                rec.violation('start-' + vkey, msg, where)
+            del mon.start_violations[:]
+            check_run(case, before, env, dict(mon.exec_run), rec, where)
+            reexec = [n for n in case['tasks'] if mon.exec_run.get(n, 0)
+                      and before.get(n, (None,))[0] == 'DONE']
+            rec.count('reexecutions_observed', len(reexec))
+        rec.seen(('cli', len(hist['runs']), len(hist['tasks'])))
+    finally:
+        if hasattr(builtins, key):
+            delattr(builtins, key)
+        shutil.rmtree(root, ignore_errors=True)
+
+
 def run(spec, rec):
     seed = spec['seed']
+    if spec['mode'] == 'cli':
+        for idx in range(spec['lo'], spec['hi']):
+            parts = (seed, PROP, 'cli', spec['shard'], idx)
+            cli_history(gen_history(core.rng_for(*parts)), parts, rec)
+        for name in DECIDING:
+            rec.count(name, 0)
+        return
     engine = 'stress' if spec['mode'] == 'stress' else 'controlled'
     for idx in range(spec['lo'], spec['hi']):
         parts = (seed, PROP, engine, spec['shard'] if engine == 'stress'
@@ -345,6 +452,10 @@ def run(spec, rec):
 
 def replay(case, rec):
     engine = case['engine']
+    if engine == 'cli':
+        for _ in range(5):
+            cli_history(case['history'], tuple(case['seed_parts']), rec)
+        return
     reps = 1 if engine == 'controlled' else 10
     for _ in range(reps):
         run_history(case['history'], tuple(case['seed_parts']), rec, engine,
